@@ -120,7 +120,12 @@ class AnsiDecoder:
         Yields:
             Text: Marked up Text.
         """
-        for line in terminal_text.splitlines():
+        # a terminal starts a new line at a line feed only: str.splitlines() would also break at
+        # (and swallow) the separators U+001C..U+001E, U+0085, U+2028 and U+2029
+        lines = terminal_text.split("\n")
+        if not lines[-1]:
+            lines.pop()
+        for line in lines:
             yield self.decode_line(line)
 
     def decode_line(self, line: str) -> Text:
